@@ -86,12 +86,15 @@ QTLOGGER_DECL_SPEC
 void Logger::processMessage(QtMsgType type, const QMessageLogContext &context,
                             const QString &message)
 {
+    QTLOGGER_VERIF_POINT("logger.enter", this);
 #ifndef QTLOGGER_NO_THREAD
     QMutexLocker locker(mutex());
 #endif
+    QTLOGGER_VERIF_POINT("logger.locked", this);
 
     LogMessage lmsg(type, context, message);
     process(lmsg);
+    QTLOGGER_VERIF_POINT("logger.exit", this);
 }
 
 QTLOGGER_DECL_SPEC
